@@ -4,6 +4,46 @@ import json, os, sys
 ROOT = os.path.dirname(os.path.dirname(os.path.abspath(__file__)))
 
 CHECKS = {
+ "C01": dict(engine="E1+E2",
+    technique="enumeration of declaration atoms, atom pairs and kitchen-sink shaders x configuration sets; outputs de-duplicated by text and type-checked by rustc against the real wgpu 24.0.5 / bytemuck / encase / serde / glam",
+    text="Every atom (one WGSL feature each: struct shapes over the leaf table, every resource kind, constant / override / push-constant forms, entry shapes, bind group shapes, every Rust keyword naga accepts and every generator-introduced name in 10 naming positions, collision cases), pairs of class representatives and three kitchen-sink shaders are generated under 16x3 derive/representation combinations (struct atoms) or 5 base configurations, and every distinct output text is compiled by rustc against the real crates; only layout-assertion and Pod-padding rejections are permitted.",
+    note="Trusted: rustc 1.95 (edition 2021), the real wgpu/bytemuck/encase/serde/glam crates from the offline cache; nalgebra is a stand-in and Nalgebra x encase is not judged. Pairs, not arbitrary mixes.",
+    design="4 C01"),
+ "C07": dict(engine="E1+E2",
+    technique="enumeration of vertex input structs x entry shapes x 12 configurations; omodel + real wgpu-core check_stage with the emitted attributes; compiled subset executed to compare offsets with rustc's offset_of!/size_of and to apply the transcribed vertex-buffer rules",
+    text="All 1-member and (thorough: all) 2-member vertex input structs over the 16 attribute types with builtins at every position and three location patterns, plus multi-struct / shared-struct / multi-entry shapes, under representation x bytemuck x encase combinations: attribute count, location, format, offset source, stride source and per-entry buffer order are checked on every state; wgpu's own vertex-input validation runs on every state; a spread subset is compiled and executed.",
+    note="Trusted: rustc, wgpu-core validation (run for real), transcription of create_render_pipeline's vertex buffer loop, omodel.",
+    design="4 C07"),
+ "C12": dict(engine="E1+E2",
+    technique="enumeration of override sets x field assignments; every module compiled and executed; resulting map fed to the real naga process_overrides",
+    text="48 single override shapes and ordered pairs of them (quick: a band; thorough: all) x 5-9 assignments incl. extremes and unset optionals: struct fields and key set through omodel; constants() and the maps reaching entry helpers / state builders through execution; then naga's own override resolution must accept the map and yield the supplied values.",
+    note="Trusted: rustc, naga::back::pipeline_constants (run for real), the wgpu stand-in (type-checked against real wgpu).",
+    design="4 C12"),
+ "C14": dict(engine="E1+E2",
+    technique="full product of entry shapes per stage x overrides, omodel on every state, execution of every helper / pipeline constructor on the recording stand-in",
+    text="Every combination of vertex parameter shape, fragment result shape, compute workgroup size and override presence, with rotating names (ascii, mixed case, non-ASCII, upper case) and multi-entry programs: name constants, helper signatures, target counts, buffer counts, state builders and compute constructors are read from every output and executed on a subset.",
+    note="Trusted: rustc, the stand-in, omodel.",
+    design="4 C14"),
+ "C15": dict(engine="E1+E2",
+    technique="enumeration of scalar constant declarations (type x value x form); value by construction cross-checked with naga's evaluator; read through omodel and evaluated by rustc",
+    text="83 constant declarations over all scalar types, extreme values and six forms, explored together, per form and alone; type and exact bits compared through omodel on every module and through rustc evaluation (type_name_of_val, to_bits).",
+    note="Trusted: rustc, naga constant evaluator as cross-check.",
+    design="4 C15"),
+ "C16": dict(engine="E1+E2",
+    technique="all payload strings of length <=2 (<=3) over an escaping alphabet x 3 placements x formatter on/off; syn literal value; rustc include_bytes! comparison and device hand-over on compiled cases",
+    text="Every string up to the length bound over a 48-character alphabet of escaping-relevant characters is embedded in a valid shader in three placements; SOURCE is compared with the input through syn on every case and through rustc on the compiled cases, incl. the bytes handed to create_shader_module; include paths likewise.",
+    note="Trusted: syn's literal parser (bound to rustc on the compiled subset), rustc.",
+    design="4 C16"),
+ "C18": dict(engine="E3",
+    technique="controlled-scheduler exploration of real threads (preemption-bounded DFS over verif-hooks yield points, prefix replay checked); exhaustive call histories in fresh processes; enumerated hash seeds via a getrandom interposer; strace monitor",
+    text="All call histories up to depth 2/3 over a colliding 6-input alphabet; all schedules of 2-3 real threads within preemption bound 1-3 at 12 section yield points per call (replayed prefixes must reproduce); 24/256 enumerated hash seeds x cwd x environment in fresh processes, with the realised HashSet iteration orders counted; no file/process/network syscall between markers. Every output must be byte-identical to the isolated reference.",
+    note="Trusted: the yield hooks sit between all sections (audit of cross-call state constructs is reported); ASLR-dependent nondeterminism is sampled only by the process sweep.",
+    design="4 C18"),
+ "C19": dict(engine="E4", category="fault_enumeration",
+    technique="fault enumeration: scripted rustfmt stub x exact token-string sizes around the pipe buffer x ordering hook; token equality with the unformatted program",
+    text="Every formatter behaviour of the list (absent, not executable, exits with/without reading, killed by signals, closes stdin early, exit 0 without output, slow, genuine) x token-string sizes {1.4k, 65535, 65536, 65537, 300k} x order (race / formatter terminated before the parent's write) runs in a child process with a hang cap; result must be Ok and token-equal to the unformatted program; formatter on vs off compared on a program corpus.",
+    note="Trusted: a genuine rustfmt on PATH; /proc for the ordering hook.",
+    design="4 C19"),
  "C02": dict(engine="E1+E2",
     technique="exhaustive enumeration of a resource table and index placements; generated layouts fed to the real wgpu-core Interface::check_stage; transcribed create_bind_group_layout rules; comparison with wgpu's derived layout",
     text="Every resource kind WGSL can declare (3 buffer address spaces x 7 types, all sampled/multisampled/depth texture types, 41 storage formats x 4 accesses x 4 dimensions, 16 texture/sampler pairings) used by every legal stage set, plus sparse index placements and two-resource programs, is generated for real; the layouts read from the output are handed to wgpu-core's own check_stage as Provided layouts for every entry point, checked against the transcribed create_bind_group_layout entry rules, and compared with the layout wgpu derives itself. The space is finite and fully enumerated.",
